@@ -113,6 +113,7 @@ def oracle(case, run):
     # observers on every trace line: size bound, holder_
     inside = {}    # thread -> True while between lock/wake and unlock/wait on m0
     moncond = {"bq": ("c0",), "bbq": ("c0", "c1"), "latch": ("c0",)}[kind]
+    prev_n = prev_t = None
     for t in run.trace:
         ti, k, obj, res = int(t[2][1:]), t[3], t[4], t[5]
         h = n = None
@@ -121,6 +122,13 @@ def oracle(case, run):
                 h = x[2:]
             elif x.startswith("n="):
                 n = int(x[2:])
+        # "mutate under the lock": between two consecutive trace lines only the thread of the
+        # earlier line has run (a thread gives up the turn only inside a wrapped call, and every
+        # wrapped call prints its line after it got the turn back)
+        if n is not None and prev_n is not None and n != prev_n and not inside.get(prev_t):
+            return "the %s changed from %d to %d while T%d was outside the critical section (before step %s)" % (
+                "count" if kind == "latch" else "queue size", prev_n, n, prev_t, t[1])
+        prev_n, prev_t = n, ti
         if kind == "bbq" and n is not None and n > cap:
             return "queue size %d > capacity %d observed at step %s" % (n, cap, t[1])
         if (k == "lock" and obj == "m0") or (k == "wake" and obj in moncond):
